@@ -327,7 +327,7 @@ package zygo
 //@ macro nkey(key Sexp) Sexp = ite(typeis(key, *SexpArray) && len(key.(*SexpArray).Val) == 1, key.(*SexpArray).Val[0], key)
 
 //@ func (*SexpHash).HashSet
-//@ requires hash != nil
+//@ requires hash != nil && hash.Map != nil
 //@ C14,C17 modifies hash.GoStructFactory, hash.NumKeys, hash.KeyOrder, elems(hash.KeyOrder), map(hash.Map), elems(hash.Map[hashOf(nkey(key))])
 //@ C14,C17 ensures rejected: r0 != nil ==> sameHeaders(hash) && sameOrder(hash)
 //@ C14 ensures counts: r0 == nil ==> (hash.NumKeys == old(hash.NumKeys) || hash.NumKeys == old(hash.NumKeys) + 1)
@@ -344,7 +344,7 @@ package zygo
 //@ C14 loop 0 invariant match: old(absent(hash, nkey(entry(key)))) ==> !found
 
 //@ func (*SexpHash).HashDelete
-//@ requires hash != nil
+//@ requires hash != nil && hash.Map != nil
 //@ C14 modifies hash.NumKeys, hash.KeyOrder, elems(hash.KeyOrder), map(hash.Map), elems(hash.Map[hashOf(key)])
 //@ C14 ensures absent-noop: old(absent(hash, key)) ==> sameHeaders(hash) && sameOrder(hash)
 //@ C14 ensures error-noop: r0 != nil ==> sameHeaders(hash) && sameOrder(hash)
